@@ -264,7 +264,19 @@ def check_predict_tracking(chk, rep, repo):
         extra = [f for f in facts(marks[0].guards) if f not in base]
         defined = (("cmp", "<", ("const", -1), after), ("cmp", "<=", ("const", 0), after),
                    ("cmp", "!=", *sorted([("const", -1), after], key=repr)), ("cmp", "!=", ("const", -1), after))
-        ok = all(f in defined for f in extra)
+        def seen_once(f):
+            """`if c not in seen: seen.add(c); mark(c)` with `seen` a set created in this call: marking (which only sets
+            flags, rule P2) is skipped exactly for conquerors it was already applied to."""
+            if not (f[0] == "cmp" and f[1] == "not in" and f[2] == after and f[3][0] == "alloc"
+                    and f[3][1] == "builtin.set" and not f[3][2]):
+                return False
+            S = f[3]
+            made = [e for e in w.events if e.kind == "call" and e.value == S]
+            uses = [e for e in w.events if e.kind == "call" and e.target is not None and e.target[0] == "attr" and e.target[1] == S]
+            adds = [e for e in uses if e.name == "add" and e.args == (after,) and e.guards == marks[0].guards
+                    and e.loops == marks[0].loops]
+            return len(made) == 1 and not made[0].loops and len(adds) == 1 and len(uses) == 1
+        ok = all(f in defined or seen_once(f) for f in extra)
     rep.fn("P1-mark", fn, "mark_nodes(conqueror) is called once per predicted sample", ok,
            "relevance marking must be applied to the conqueror of every sample (only a definedness test may guard it)",
            line=li.line)
